@@ -219,7 +219,6 @@ pub fn check_conservation(run: &Run, nworkers: usize) -> ConsResult {
 
 struct ConsCase {
     n: u32,
-    seed: u64,
     res: ConsResult,
     run: Run,
     nworkers: usize,
@@ -300,12 +299,139 @@ fn gen_cons_case(n: u32, seed: u64, faults_on: bool) -> Option<ConsCase> {
     });
     Some(ConsCase {
         n,
-        seed,
         res,
         run,
         nworkers,
         sample,
     })
+}
+
+/// The (n, faults_on) list simulated by the conservation batch: a pure
+/// function of (VERIF_SEED, tier), computed alike by parent and children.
+fn cons_plan(vs: u64, quick: bool) -> Vec<(u32, bool)> {
+    let mut ns: Vec<(u32, bool)> = vec![];
+    let dense = if quick { 64 } else { 1024 };
+    for n in 1..=dense {
+        ns.push((n, false));
+        ns.push((n, true));
+    }
+    let mut rng = Rng::new(run_seed(vs, "C16", "cons-n", 0));
+    let sampled = if quick { 160 } else { 3000 };
+    for _ in 0..sampled {
+        let n = match rng.below(4) {
+            0 => rng.range(1177, 2048) as u32,
+            1 => rng.range(65, 400) as u32,
+            _ => rng.range(dense as u64 + 1, 2048) as u32,
+        };
+        ns.push((n, rng.chance(2, 3)));
+    }
+    ns
+}
+
+fn to_replay(run: &Run, n: u32, nworkers: usize) -> Value {
+    let mut rj = run.to_json();
+    rj["kind"] = json!("c16_conservation");
+    rj["n"] = json!(n);
+    rj["nworkers"] = json!(nworkers);
+    rj
+}
+
+pub fn case(_batch: &str, tier: &str, i: u64) -> CaseOut {
+    let vs = verif_seed();
+    let plan = cons_plan(vs, tier == "quick");
+    let (n, faults_on) = plan[i as usize % plan.len()];
+    let seed = run_seed(vs, "C16", if faults_on { "cons-f" } else { "cons" }, i);
+    let mut out = CaseOut { index: i, seed, ..Default::default() };
+    // a worker count whose scope list already breaks a tiling clause is reported by
+    // oracle 1; simulating it would only show the consequence
+    match scopes_for(n) {
+        Ok(sc) if tiling_defect(&sc).is_none() => {}
+        _ => {
+            *out.probes.entry("conservation_skipped_tiling_already_broken_for_n".into()).or_insert(0) += 1;
+            return out;
+        }
+    }
+    let Some(c) = gen_cons_case(n, seed, faults_on) else { return out };
+    out.evals = 1;
+    out.steps = c.res.next_calls;
+    out.log = c.res.log;
+    out.faults = c.res.faults.clone();
+    out.probes = c.res.probes.clone();
+    let nfaults: u64 = c.res.faults.values().sum();
+    let mut probe = |k: &str, v: u64| *out.probes.entry(k.to_string()).or_insert(0) += v;
+    probe("conservation_runs", 1);
+    probe("global_states_seen", c.res.states as u64);
+    if c.n > 1176 {
+        probe("conservation_n_gt_1176", 1);
+    }
+    if c.run.execs > 1 {
+        probe("multi_executor_runs", 1);
+    }
+    if c.nworkers >= 2 || nfaults > 0 {
+        let mut f = Fold::new();
+        f.add(c.n as u64);
+        f.add(c.res.trace_hash);
+        f.add_str(&c.run.scens[0].short());
+        out.distinct.push(f.get());
+    }
+    if c.res.skipped.is_some() {
+        probe("skipped_reference_abnormal", 1);
+        return out;
+    }
+    if c.n % 7 == 3 || nfaults > 0 {
+        out.sample = Some(c.sample.clone());
+    }
+    if let Some((okey, detail)) = &c.res.key {
+        out.violation = Some((okey.clone(), detail.clone(), to_replay(&c.run, c.n, c.nworkers)));
+    }
+    out
+}
+
+pub fn eval(v: &Value) -> Option<(String, String)> {
+    match v["kind"].as_str().unwrap_or("") {
+        "c16_tiling" => {
+            let n = v["n"].as_u64().unwrap_or(1) as u32;
+            match scopes_for(n) {
+                Ok(sc) => tiling_defect(&sc).map(|(rule, d)| (format!("tiling:{rule}"), d)),
+                Err(m) => Some(("tiling:panic".into(), m)),
+            }
+        }
+        _ => {
+            let mut run = Run::from_json(v).ok()?;
+            let n = v["n"].as_u64().unwrap_or(0);
+            let nworkers = v["nworkers"].as_u64().unwrap_or(run.specs.len() as u64) as usize;
+            // the scopes are recomputed by the current calculate_scopes(n): the replay
+            // re-executes the recorded schedule on today's splitter, not on stored cuts
+            if let Ok(cur) = scopes_for(n as u32) {
+                if cur.len() == nworkers {
+                    let old: Vec<TaskSpec> = run.specs.clone();
+                    for i in 0..run.specs.len() {
+                        let j = if i < nworkers { i } else { (0..nworkers).find(|j| old[*j].scope == old[i].scope).unwrap_or(0) };
+                        run.specs[i].scope = Some(cur[j]);
+                    }
+                }
+            }
+            check_conservation(&run, nworkers).key
+        }
+    }
+}
+
+fn minimise_json(replay: &Value, _okey: &str, pred: &dyn Fn(&Value) -> bool) -> (Value, usize) {
+    let Ok(run) = Run::from_json(replay) else { return (replay.clone(), 0) };
+    let n = replay["n"].as_u64().unwrap_or(0) as u32;
+    let nworkers = replay["nworkers"].as_u64().unwrap_or(run.specs.len() as u64) as usize;
+    let fails = move |r: &Run| -> bool { pred(&to_replay(r, n, nworkers)) };
+    // keep n (the scopes are the point), shrink scenario and schedule
+    let (min, tried) = shrink_run(
+        run,
+        &fails,
+        ShrinkOpts { drop_tasks: false, drop_players: true, narrow_scopes: false, max_candidates: 120 },
+    );
+    (to_replay(&min, n, nworkers), tried)
+}
+
+fn key_json(okey: &str, min: &Value) -> String {
+    format!("{okey}:n={}", min["n"].as_u64().unwrap_or(0))
 }
 
 pub fn run(tier: &str) -> i32 {
@@ -404,116 +530,42 @@ pub fn run(tier: &str) -> i32 {
         }
     }
 
-    // ---------------- oracle 2/3: conservation runs
-    let mut ns: Vec<(u32, bool)> = vec![];
-    let dense = if quick { 64 } else { 1024 };
-    for n in 1..=dense {
-        ns.push((n, false));
-        ns.push((n, true));
-    }
-    {
-        let mut rng = Rng::new(run_seed(vs, "C16", "cons-n", 0));
-        let sampled = if quick { 160 } else { 3000 };
-        for _ in 0..sampled {
-            let n = match rng.below(4) {
-                0 => rng.range(1177, 2048) as u32,
-                1 => rng.range(65, 400) as u32,
-                _ => rng.range(dense as u64 + 1, 2048) as u32,
-            };
-            ns.push((n, rng.chance(2, 3)));
-        }
-    }
-    // a worker count whose scope list already breaks a tiling clause is reported by
-    // oracle 1; simulating it too only shows the consequence (keep a handful)
-    let mut kept_bad = 0;
-    ns.retain(|(n, _)| {
-        if tiling_bad_n.contains(n) {
-            kept_bad += 1;
-            kept_bad <= 6
-        } else {
-            true
-        }
-    });
-    let ns2 = ns.clone();
-    let cases = par_map(ns.len(), workers(), move |i| {
-        let (n, faults_on) = ns2[i];
-        let seed = run_seed(vs, "C16", if faults_on { "cons-f" } else { "cons" }, i as u64);
-        fresh_thread(|| gen_cons_case(n, seed, faults_on))
-    });
+    // ---------------- oracle 2/3: conservation runs, in chunked child processes
+    let ncases = cons_plan(vs, quick).len() as u64;
+    let chunk: u64 = if quick { 8 } else { 32 };
     let mut logfold = Fold::new();
-    for c in cases.into_iter().flatten() {
-        ev.evaluations += 1;
-        ev.steps += c.res.next_calls;
-        logfold.add(c.res.log);
-        let nfaults: u64 = c.res.faults.values().sum();
-        if c.nworkers >= 2 || nfaults > 0 {
-            let mut f = Fold::new();
-            f.add(c.n as u64);
-            f.add(c.res.trace_hash);
-            f.add_str(&c.run.scens[0].short());
-            ev.distinct.insert(f.get());
-        }
-        ev.merge_counts(&c.res.faults, &c.res.probes);
-        ev.probe("conservation_runs", 1);
-        ev.probe("global_states_seen", c.res.states as u64);
-        if c.n > 1176 {
-            ev.probe("conservation_n_gt_1176", 1);
-        }
-        if c.run.execs > 1 {
-            ev.probe("multi_executor_runs", 1);
-        }
-        if let Some(s) = &c.res.skipped {
-            ev.probe("skipped_reference_abnormal", 1);
-            let _ = s;
-            continue;
-        }
-        if ev.samples.len() < 10 && (c.n % 7 == 3 || nfaults > 0) {
-            ev.sample(c.sample.clone());
-        }
-        if let Some((okey, detail)) = &c.res.key {
-            if tiling_bad_n.contains(&c.n) {
-                // consequence of a tiling violation already reported for this n
-                ev.probe("conservation_failures_explained_by_tiling", 1);
-                continue;
-            }
-            if ev.violations.iter().filter(|v| !v.oracle.starts_with("tiling")).count() >= 3 {
-                ev.probe("further_violations_not_minimised", 1);
-                continue;
-            }
-            // minimise: keep n (the scopes are the point), shrink scenario and schedule
-            let nworkers = c.nworkers;
-            let okey2 = okey.clone();
-            let fails = move |r: &Run| -> bool {
-                fresh_thread(|| check_conservation(r, nworkers))
-                    .key
-                    .map(|(k, _)| k == okey2)
-                    .unwrap_or(false)
-            };
-            let (min, tried) = shrink_run(
-                c.run.clone(),
-                &fails,
-                ShrinkOpts {
-                    drop_tasks: false,
-                    drop_players: true,
-                    narrow_scopes: false,
-                    max_candidates: 150,
-                },
-            );
-            let fin = fresh_thread(|| check_conservation(&min, nworkers));
-            let detail = fin.key.as_ref().map(|x| x.1.clone()).unwrap_or(detail.clone());
-            let mut rj = min.to_json();
-            rj["kind"] = json!("c16_conservation");
-            rj["n"] = json!(c.n);
-            rj["nworkers"] = json!(nworkers);
-            rj["shrink_candidates"] = json!(tried);
+    let chunks = run_batch("C16", "cons", ncases, chunk, tier, false);
+    for (ci, ch) in chunks.iter().enumerate() {
+        let chunk_first = ci as u64 * chunk;
+        if let Some((i, how)) = &ch.died {
             ev.violations.push(Violation {
                 property: "C16".into(),
-                oracle: okey.clone(),
-                key: format!("{okey}:n={}", c.n),
-                detail: format!("n={} {}: {}", c.n, min.scens[0].short(), detail),
-                seed: c.seed,
-                replay: rj,
+                oracle: "process_died".into(),
+                key: format!("process_died:history:cons:{chunk_first}..={i}"),
+                detail: format!("the process simulating the workers ended with {how} at case {i}"),
+                seed: vs,
+                replay: json!({"kind":"chunk","batch":"cons","first":chunk_first,"upto":i,"tier":tier,"expected_oracle":"process_died"}),
             });
+        }
+        for c in &ch.cases {
+            ev.merge_case(c);
+            logfold.add(c.log);
+            if let Some(sm) = &c.sample {
+                if ev.samples.len() < 10 {
+                    ev.sample(sm.clone());
+                }
+            }
+            if c.violation.is_some() {
+                if ev.violations.iter().filter(|v| !v.oracle.starts_with("tiling")).count() >= 3 {
+                    ev.probe("further_violations_not_minimised", 1);
+                    continue;
+                }
+                let mut v = settle_violation("C16", "cons", tier, false, chunk_first, c, &minimise_json, &key_json);
+                if let Ok(run) = Run::from_json(&v.replay) {
+                    v.detail = format!("n={} {}: {}", v.replay["n"].as_u64().unwrap_or(0), run.scens[0].short(), v.detail);
+                }
+                ev.violations.push(v);
+            }
         }
     }
     ev.extra.insert("event_log_digest".into(), json!(format!("{:016x}", logfold.get())));
@@ -529,32 +581,9 @@ pub fn run(tier: &str) -> i32 {
 pub fn replay(v: &Value) -> Option<(String, String)> {
     let r = &v["replay"];
     match r["kind"].as_str().unwrap_or("") {
-        "c16_tiling" => {
-            let n = r["n"].as_u64().unwrap_or(1) as u32;
-            match scopes_for(n) {
-                Ok(sc) => tiling_defect(&sc).map(|(rule, d)| (format!("tiling:{rule}:n={n}"), d)),
-                Err(m) => Some((format!("tiling:panic:n={n}"), m)),
-            }
-        }
-        "c16_conservation" => {
-            let mut run = Run::from_json(r).ok()?;
-            let n = r["n"].as_u64().unwrap_or(0);
-            let nworkers = r["nworkers"].as_u64().unwrap_or(run.specs.len() as u64) as usize;
-            // the scopes are recomputed by the current calculate_scopes(n): the replay
-            // re-executes the recorded schedule on today's splitter, not on stored cuts
-            if let Ok(cur) = scopes_for(n as u32) {
-                if cur.len() == nworkers {
-                    let old: Vec<TaskSpec> = run.specs.clone();
-                    for i in 0..run.specs.len() {
-                        let j = if i < nworkers { i } else { (0..nworkers).find(|j| old[*j].scope == old[i].scope).unwrap_or(0) };
-                        run.specs[i].scope = Some(cur[j]);
-                    }
-                }
-            }
-            check_conservation(&run, nworkers)
-                .key
-                .map(|(k, d)| (format!("{k}:n={n}"), d))
-        }
+        "chunk" => replay_chunk("C16", r),
+        "c16_tiling" => eval(r).map(|(k, d)| (format!("{k}:n={}", r["n"].as_u64().unwrap_or(0)), d)),
+        "c16_conservation" => eval_in_child("C16", r, false).map(|(k, d)| (key_json(&k, r), d)),
         _ => None,
     }
 }
